@@ -692,6 +692,122 @@ def search_trees(ck: Ck) -> None:
     shutil.rmtree(base_dir, ignore_errors=True)
 
 
+# ------------------------------------------------------------------------------------------------ ops model vs observed accesses
+OPS_CASES = [  # (label, method of RawFileSystem, branch)
+    ('contains', '_file_exists', 'str'), ('lookup', '_get_file', 'str'), ('open_bin', 'open_bin', 'str'),
+    ('open_str', 'open_str', 'str'), ('walk', 'walk_folder', 'str'), ('handle_open_bin', 'open_bin', 'File'),
+    ('handle_open_str', 'open_str', 'File'), ('handle_cache_key', '_get_cache_key', 'File'),
+]
+KCODE = {'open': 1, 'os.walk': 2, 'os.stat': 3, 'os.lstat': 3}
+
+
+def corr_ops(ck: Ck) -> None:
+    """The data-flow model of the operations (Gen/FsOps_gen.v + peval) against what the implementation really hands to
+    the OS: for (method, branch, argument, handle strings) the model lists (callee, path) of every access; the audit
+    hook observes the real ones.  Handles are built with DIFFERENT path and data strings, so a model that confuses the
+    two fields disagrees."""
+    from srctools.filesys import File, RawFileSystem, RootEscapeError
+    base_dir = Path(tempfile.mkdtemp(prefix='ops_', dir=ck.scratch))
+    base = os.path.realpath(base_dir)
+    build_tree(Path(base))
+    root = base + '/t/root'
+    rng = ck.rng
+    pool = ['in.txt', 'sub/in.txt', 'sub/../in.txt', '../above.txt', '..\\above.txt', 'sub\\..\\in.txt', '../root_evil/secret.txt',
+            '', '.', 'sub', '../rootx', base + '/t/root/a', base + '/t/above.txt', '/', 'nope', 'sub//deep.txt', './a',
+            '..', 'x/../../root/in.txt', 'root_evil/nested.txt', '..\\root_evil\\secret.txt', 'sub/..\\in.txt']
+    cases = []
+    for label, m, b in OPS_CASES:
+        for p in pool:
+            cases.append((label, m, b, p, rng.choice(pool), rng.choice(pool)))
+    for _ in range(ck.budget(120, 1500)):
+        label, m, b = rng.choice(OPS_CASES)
+        mk = lambda: rng.choice(['', '/', base + '/t/']) + join_kind(rng.choice([0, 0, 1, 2]), [rng.choice(SEGS) for _ in range(rng.choice([1, 2, 3, 4]))])
+        cases.append((label, m, b, mk(), mk(), mk()))
+    observed = []
+    old = os.getcwd()
+    os.chdir(base)
+    try:
+        for label, m, b, arg, hpath, data in cases:
+            fs = RawFileSystem(root)
+            h = File(fs, hpath, data)
+            with observe() as ev:
+                try:
+                    if label == 'contains':
+                        arg in fs
+                    elif label == 'lookup':
+                        fs[arg]
+                    elif label == 'open_bin':
+                        fs.open_bin(arg).close()
+                    elif label == 'open_str':
+                        fs.open_str(arg).close()
+                    elif label == 'walk':
+                        for _f in fs.walk_folder(arg):
+                            break
+                    elif label == 'handle_open_bin':
+                        fs.open_bin(h).close()
+                    elif label == 'handle_open_str':
+                        fs.open_str(h).close()
+                    else:
+                        fs._get_cache_key(h)
+                except (RootEscapeError, OSError, ValueError, UnicodeError):
+                    pass
+            observed.append(sorted({(KCODE[k], p) for k, p in ev if k in KCODE}))
+            ck.count('ops_model_cases')
+            ck.hist('ops_model_case', f'{label}:{"access" if observed[-1] else "no-access"}')
+            if observed[-1] and ('..' in arg + hpath + data or '\\' in arg + hpath + data):
+                ck.seen(('ops', label, arg, hpath, data))
+    finally:
+        os.chdir(old)
+        shutil.rmtree(base_dir, ignore_errors=True)
+    from harness.common import parse_coq_nested
+    pre = ('Require Import Coq.Strings.String.\n'
+           'Definition kcode (c : string) : N := if String.eqb c "open" then 1%N else if String.eqb c "os.walk" then 2%N else 3%N.\n'
+           f'Definition o_cwd : str := {coq_str(base)}.\nDefinition o_root : str := {coq_str(root)}.\n'
+           'Definition predict (m b : string) (arg hpath data : str) : list (N * str) :=\n'
+           '  map (fun x => (kcode (fst x), snd x)) (site_accesses raise_if o_cwd o_root '
+           '{| i_arg := arg; i_data := data; i_hpath := hpath; i_prefix := []; i_walked := [] |} m b raw_sites).\n')
+    bad = []
+    missing = set()
+    chunks = [list(range(lo, min(lo + 150, len(cases)))) for lo in range(0, len(cases), 150)]
+
+    def batch(idx):
+        exprs = ['[' + '; '.join(f'predict "{cases[k][1]}" "{cases[k][2]}" {coq_str(cases[k][3])} {coq_str(cases[k][4])} '
+                                 f'{coq_str(cases[k][5])}' for k in idx) + ']',
+                 '[' + '; '.join(f'has_method "{m}" "{b}" raw_sites' for _, m, b in OPS_CASES) + ']']
+        return coq_run(ck, f'ops{idx[0]}', exprs, preamble=pre)
+    with ThreadPoolExecutor(max_workers=6) as ex:
+        outs = list(ex.map(batch, chunks))
+    for idx, vals in zip(chunks, outs):
+        if vals is None:
+            ck.obligation('correspondence:operations_model', False, 'model could not be evaluated')
+            ck.tie_broken.append('correspondence operations model: evaluation failed')
+            return
+        present = dict(zip([(m, b) for _, m, b in OPS_CASES], parse_coq_nested(vals[1])))
+        for k, pred in zip(idx, parse_coq_nested(vals[0])):
+            if not present[(cases[k][1], cases[k][2])]:
+                missing.add(cases[k][1])          # method renamed / restructured: nothing to compare against
+                continue
+            model = sorted({(int(c), ''.join(chr(x) for x in a)) for c, a in pred})
+            if model != observed[k]:
+                bad.append({'op': cases[k][0], 'method': cases[k][1], 'branch': cases[k][2], 'arg': cases[k][3],
+                            'handle_path': cases[k][4], 'handle_data': cases[k][5], 'root': root.replace(base, '{BASE}'),
+                            'observed': [[c, p.replace(base, '{BASE}')] for c, p in observed[k]],
+                            'model': [[c, p.replace(base, '{BASE}')] for c, p in model]})
+    if missing:
+        ck.notes.append(f'operations correspondence: no site table for methods {sorted(missing)} (renamed?); those cases were skipped')
+    ck.extra['ops_model_methods_without_sites'] = sorted(missing)
+    ck.obligation('correspondence:operations_model', not bad,
+                  f'{len(cases)} (operation, argument, handle path, handle data) cases: the (callee, path) list of the model '
+                  f'(Gen/FsOps_gen.v through peval) vs the accesses observed by the audit hook: {len(bad)} disagreements'
+                  + (f'; first: {bad[0]}' if bad else ''))
+    if bad:
+        ck.tie_broken.append('correspondence operations model (SM/PathOps.v + Gen/FsOps_gen.v vs observed OS accesses)')
+        ck.extra['ops_model_disagreements'] = bad[:5]
+        DISAGREE.setdefault('ops', set()).update(b['method'] for b in bad)
+    ck.sample({'operations_model_case': dict(zip(('op', 'method', 'branch', 'arg', 'handle_path', 'handle_data'), cases[2])),
+               'observed_accesses': [[c, p.replace(base, '{BASE}')] for c, p in observed[2]]})
+
+
 def search_unify(ck: Ck) -> None:
     """unify_path on every domain path + random ones: the result, joined under a base, must stay below it."""
     from srctools.packlist import unify_path
@@ -796,6 +912,8 @@ def run(ck: Ck) -> None:
         t = _stage(ck, 'corr_random', t)
         check_casefold(ck)
         t = _stage(ck, 'casefold', t)
+        corr_ops(ck)
+        t = _stage(ck, 'corr_ops', t)
     search_trees(ck)
     t = _stage(ck, 'search_trees', t)
     search_unify(ck)
@@ -812,6 +930,8 @@ def run(ck: Ck) -> None:
         ck.explain('translate:Containment_gen')
     # A model/implementation disagreement is explained only when every disagreeing function belongs to the part whose
     # concrete violation was exhibited (unify_path by an escaping pack path, _resolve_path by an observed escape).
+    if DISAGREE.get('ops') and any(k.startswith(('escape-', 'handle-escape-')) for k in keys):
+        ck.explain('correspondence:operations_model')
     for stage, ob in (('exhaustive', 'correspondence:paths_exhaustive'), ('random', 'correspondence:paths_random')):
         fs = DISAGREE.get(stage, set())
         if fs and all(f == 'unify_path' and 'unify-path-escapes' in keys
